@@ -1,4 +1,5 @@
 import MuscleModel.Reflector.UpdateProofs
+import MuscleModel.Reflector.MirrorProofs7
 
 /-!
 # C04 — A subscriber's mirror of the node tree converges to the server's tree
@@ -14,17 +15,40 @@ following a set of the same path, and flushes at ARBITRARY further points (other
 first and then sets, ends up with exactly the data set obtained by applying the events one at a time:
 nothing missing, nothing stale, nothing extra because of batching.
 
-Full statement of the property theorem that is NOT proved yet (kept for reference):
+`marks_correct` (lemmas `Reflector/MirrorProofs1…5.lean`): in every state the engine reaches (`MReach`: attach, detach,
+every command of `runCmd`, pushes, pumps, from the empty server; SUBSCRIBE paths must be `GoodPath` after
+normalisation) every node below the root carries, for every attached session, exactly the number of that session's
+subscription entries whose clauses match the node's path, and nothing for ids that are not attached.
+
+`notify_exact` (lemmas `Reflector/MirrorProofs6.lean`): `NotifySubscribersThatNodeChanged` IS the fold of
+`NodeChangedAux` (`feedSrv`) over an explicit list of (session id, event) pairs, at most one per session, and a pair is
+in the list iff the session is attached, has a positive match count on the node's path (equivalently a mark on the
+node), is not the caller (unless the caller reflects to itself) and the filter transition rule `changeEv` yields that event.
+
+Full statements of the property theorems that are NOT proved (kept for reference):
+  `step_mirror : MReach sv → CmdOK c → NoQuiet → ∀ s, (eventsFedTo s (runCmd sv a c)).foldl applyEv (Matching sv s) = Matching (runCmd sv a c) s`
   `converges : ∀ history, NoQuiet history → NormalisedSubs history →
      ∀ session s, replayMirror (deliveredTo s (runAll init history)) = Matching (runAll init history) s`
-where `Matching` = the other sessions' nodes whose path matches one of s's subscriptions and passes its
-filter.  Missing: the invariant that a node's subscriber table counts exactly the matching subscription
-entries of every session (`marks_correct`), which needs the traversal theorem of C05, and the case
-analysis of `NodeChanged`'s filter transitions.
+where `Matching sv s` = the nodes of the other sessions (of all sessions when `s.reflectSelf`) whose path matches an entry of
+`s.subs` whose filter accepts the node's payload ↦ that payload.  Missing, exactly:
+ (a) the tie between `feedSrv`/`nodeChangedAux` on the server state and `feed` on the abstract `Pipe` of
+     `Reflector/Update.lean` (the pending Message of ONE session; `pushAll` flushes every session and also the index
+     Message, and the inbox holds canonical TEXT (`dataText`), so the statement needs the structured twin of the inbox);
+ (b) per command class, the list of `changeEvents` along the handler (`setDataClauses`: one per created/overwritten node;
+     `removeChild`: one per node of `removalOrder`; `subscribe`: the `doGetData` snapshot — which goes to the inbox
+     directly, not through `nodeChangedAux`; re-filter: the `ChangeQueryFilterCallback` fold) and the proof that folding
+     `applyEv` over them turns `Matching sv s` into `Matching sv' s` — this needs `marks_correct` (here), the exact
+     `getNode` reads after each primitive (`mr_nodeAt_putKid`, `mr_nodeAt_removeKid`, `mr_refs_data`: here) and the
+     equivalence "positive match count ∧ `changeEv` = set ↔ some entry matches path and filter" (immediate from
+     `pmMatchesPath`), plus the client rule for unsubscribe (the server sends no removals);
+ (c) the induction over histories (`converges`), with `batching_invisible` for the flush points.
 -/
 
+set_option linter.unusedSimpArgs false
+set_option linter.unusedVariables false
+
 namespace Muscle.Props.C04
-open Muscle Muscle.Reflector
+open Muscle Muscle.Reflector Muscle.Eng.SrvEngine
 
 /-- Batching of update Messages is invisible to the subscriber, for every limit `maxItems`, every event
     sequence and every placement of additional flushes. -/
@@ -56,5 +80,266 @@ event-by-event result. -/
 example :
     let evs : List (Ev × Bool) := [(.set [1] (some 5), false), (.removed [1], true), (.set [1] (some 6), false), (.set [2] none, false)]
     (delivered (run 1 {} evs)).length = 4 := by decide
+
+/-! ## 1. the subscriber tables count exactly the matching subscription entries
+
+Hypotheses.  `MReach sv` (Reflector/MirrorProofs5.lean): `sv` is reached from the empty server by `attach`, `detach`,
+`runCmd` of ANY session with ANY command satisfying `CmdOK`, `pushAll`, and the pump that empties the inboxes
+(`MReach.reach`: every such state is a `Reach` state of C13).  `CmdOK c`: for `c = .sub path f` the normalised path
+`adjustPrefix path "*/*"` is a `GoodPath` — no empty clause (finding F11: `a//b` is stored under clause count 3 but looked
+up under `GetPathDepth` = 2, so in the model a second SUBSCRIBE of the same string marks every node twice while the
+matcher holds ONE entry) and the two pattern-layer laws `UniqueLaw`/`UVListLaw` of C05 for every clause; every other command is
+unrestricted (unsubscribe needs nothing: the entry it removes was put by an accepted SUBSCRIBE).  NOT needed: distinct
+SUBSCRIBE spellings (F10 does not disturb the marks), any bound on the tree depth, anything about filters. -/
+
+/-- Every state the engine reaches satisfies the marking invariant (`MKT` = tree invariant of C13, session ids
+    pairwise distinct and below the id counter, every matcher well formed, `MarksOK`). -/
+theorem invariant_reach {sv : Server} (h : MReach sv) : MKT sv := mkt_reach h
+
+/-- MAIN 1.  In every reachable state, for every node `n` at a path `v` below the root: for every attached session `s`
+    the node's subscriber table holds exactly `pmMatchCount s.subs v` = the number of subscription entries of `s`
+    whose clauses match `v`; an id that is not attached has no count; the table has pairwise distinct ids and no zero
+    entry (so "has an entry" = "positive count").  Session ids are pairwise distinct. -/
+theorem marks_correct {sv : Server} (h : MReach sv) {v : List Bytes} {n : Node} (hv : v ≠ [])
+    (hn : getNode sv v = some n) :
+    (∀ s ∈ sv.sessions, subCount n.subs s.sid = pmMatchCount s.subs v) ∧
+    (∀ sid, (∀ s ∈ sv.sessions, s.sid ≠ sid) → subCount n.subs sid = 0) ∧
+    (n.subs.map (·.1)).Nodup ∧ (∀ p ∈ n.subs, 0 < p.2) ∧ (sv.sessions.map (·.sid)).Nodup := by
+  obtain ⟨_, hs, hm⟩ := mkt_reach h
+  obtain ⟨h1, h2⟩ := hm v n hv hn
+  have hnd : (sv.sessions.map (·.sid)).Nodup := by
+    have := hs.nodup
+    unfold sessKeys at this
+    rw [List.map_map] at this
+    exact this
+  refine ⟨?_, ?_, h2.1, h2.2, hnd⟩
+  · intro s hsm
+    rw [h1]
+    exact mr_expCount_of_mem hs.nodup (p := (s.sid, s.subs)) (List.mem_map.2 ⟨s, hsm, rfl⟩) v
+  · intro sid hno
+    rw [h1]
+    apply mr_expCount_not_mem
+    intro hm'
+    obtain ⟨p, hp, hp1⟩ := List.mem_map.1 hm'
+    obtain ⟨s, hsm, rfl⟩ := List.mem_map.1 hp
+    exact hno s hsm hp1
+
+/-- Departure clears the marks: after `detach sv sid` of a reachable state no node carries a count for `sid`
+    (closes `departure_no_marks_partial` of C06 for reachable states: the coverage hypothesis there is a consequence of
+    `marks_correct` and the traversal theorem of C05). -/
+theorem marks_correct_detached {sv : Server} (h : MReach sv) (sid : Nat) {v : List Bytes} {n : Node} (hv : v ≠ [])
+    (hn : getNode (detach sv sid) v = some n) : subCount n.subs sid = 0 := by
+  have h' : MReach (detach sv sid) := .detach sid h
+  by_cases hs : sv.sess? sid = none
+  · -- nobody had that id
+    have hd : detach sv sid = sv := by unfold detach; rw [hs]
+    rw [hd] at hn
+    apply (marks_correct h hv hn).2.1
+    intro s hsm e
+    have : sv.sessions.find? (fun t => t.sid = sid) = none := hs
+    rw [List.find?_eq_none] at this
+    exact this s hsm (by simpa using e)
+  · apply (marks_correct h' hv hn).2.1
+    intro s hsm
+    rcases detach_sessions sv sid s hsm with h1 | h1
+    · exact h1
+    · exact absurd h1 hs
+
+/-! Non-vacuity: the normalised form `*/*/a` of the SUBSCRIBE path `a` is a `GoodPath`; the state `exSv` (two sessions on
+two hosts, session 1 sets `a` = 5, session 0 subscribes to `a`) is reachable, the node `/i/1/a` exists in it, carries
+exactly one mark of session 0 (which holds one subscription entry) and none of session 1 (which holds none). -/
+
+theorem goodPath_a : GoodPath (adjustPrefix [97] (some defaultPrefix)) := by
+  have hs : splitSlash (adjustPrefix [97] (some defaultPrefix)) = [[42], [42], [97]] := by decide
+  unfold GoodPath
+  rw [hs]
+  refine ⟨by decide, ?_⟩
+  intro c hc
+  simp only [List.mem_cons, List.not_mem_nil, or_false] at hc
+  rcases hc with rfl | rfl | rfl
+  · exact laws_star
+  · exact laws_star
+  · exact ⟨uniqueLaw_a, uvListLaw_a⟩
+
+def exSv : Server :=
+  runCmd (runCmd (attach (attach {} 0 [104]).1 1 [105]).1 1 (.set [97] 5 false)) 0 (.sub [97] none)
+
+theorem exSv_reach : MReach exSv :=
+  .cmd 0 _ goodPath_a (.cmd 1 _ trivial (.attach 1 [105] (.attach 0 [104] .init)))
+
+example : (getNode exSv [[105], sidName 1, [97]]).map (·.subs) = some [(0, 1)] := by decide +kernel
+example : exSv.sessions.map (fun s => (s.sid, pmNumEntries s.subs)) = [(0, 1), (1, 0)] := by decide +kernel
+
+/-! ## 2. which node event reaches which subscriber
+
+`changeEv s names new old removed` (Reflector/MirrorProofs6.lean) is the filter transition rule of `NodeChanged` as a
+function of the session's subscriptions only: subscriptions disabled → nothing; no filter in the matcher → the event as
+it is; otherwise with `before` = "old payload matched" (`old = none`, a created node: "the path matches") and `now` =
+"new payload matches": removal → removed iff `before`; change → set iff `now`, removed iff `before ∧ ¬now`, nothing
+otherwise; creation → set iff `now`.  `feedSrv sv sid ev` = `NodeChangedAux` for that event; `changeEvents` = the list of
+(session id, event) pairs in the order of the node's subscriber table, all decided on the state BEFORE the call. -/
+
+/-- `NodeChanged` for one session is `NodeChangedAux` of the event `changeEv` selects (or nothing). -/
+theorem nodeChanged_exact (sv : Server) (sid : Nat) (names : List Bytes) (newData : Option Nat)
+    (oldData : Option (Option Nat)) (removed : Bool) :
+    nodeChanged sv sid names newData oldData removed =
+      match sv.sess? sid with
+      | none => sv
+      | some s =>
+        match changeEv s names newData oldData removed with
+        | none => sv
+        | some ev => feedSrv sv sid ev :=
+  nodeChanged_twin sv sid names newData oldData removed
+
+/-- MAIN 2.  For every state satisfying the marking invariant (every reachable state: `invariant_reach`; the
+    invariant is also kept by every primitive, so it holds at each call site inside a handler), every node `n` at a path
+    `v` below the root and every caller `by_`:
+    (1) `NotifySubscribersThatNodeChanged` is the fold of `NodeChangedAux` over `changeEvents`;
+    (2) no session occurs twice in that list;
+    (3) `(sid, ev)` is in the list iff `sid` is the id of an attached session `s` with a POSITIVE match count on `v`
+        (i.e. a mark on the node), `s` is not the caller unless the caller reflects to itself, and the filter
+        transition rule gives `ev`. -/
+theorem notify_exact {sv : Server} (h : MKT sv) {v : List Bytes} {n : Node} (hv : v ≠ [])
+    (hn : getNode sv v = some n) (by_ : Nat) (od : Option (Option Nat)) (removed : Bool) :
+    notifyChanged sv by_ v n od removed =
+        (changeEvents sv by_ v n od removed).foldl (fun sv (p : Nat × Ev) => feedSrv sv p.1 p.2) sv ∧
+    ((changeEvents sv by_ v n od removed).map (·.1)).Nodup ∧
+    ∀ sid ev, (sid, ev) ∈ changeEvents sv by_ v n od removed ↔
+      ∃ s ∈ sv.sessions, s.sid = sid ∧ 0 < pmMatchCount s.subs v ∧ (sid ≠ by_ ∨ bySelfOf sv by_ = true) ∧
+        changeEv s v n.data od removed = some ev := by
+  obtain ⟨_, hs, hm⟩ := h
+  obtain ⟨h1, h2⟩ := hm v n hv hn
+  refine ⟨notifyChanged_twin sv by_ v n od removed, mr_changeEvents_nodup sv by_ v n od removed h2.1, ?_⟩
+  intro sid ev
+  rw [mr_mem_changeEvents]
+  have hcount : ∀ s ∈ sv.sessions, subCount n.subs s.sid = pmMatchCount s.subs v := by
+    intro s hsm
+    rw [h1]
+    exact mr_expCount_of_mem hs.nodup (p := (s.sid, s.subs)) (List.mem_map.2 ⟨s, hsm, rfl⟩) v
+  constructor
+  · rintro ⟨⟨c, hc⟩, hcond, hse⟩
+    unfold sessEv at hse
+    cases hq : sv.sess? sid with
+    | none => rw [hq] at hse; cases hse
+    | some s =>
+      rw [hq] at hse
+      simp only [Option.bind_some] at hse
+      have hsm : s ∈ sv.sessions := List.mem_of_find?_eq_some hq
+      have hsid : s.sid = sid := by simpa using List.find?_some hq
+      refine ⟨s, hsm, hsid, ?_, hcond, hse⟩
+      rw [← hcount s hsm, hsid]
+      -- the entry `(sid, c)` is the one `subCount` finds, and it is positive
+      have hpos := h2.2 (sid, c) hc
+      have : subCount n.subs sid = c := by
+        unfold subCount
+        have hnd := h2.1
+        clear hcount h1 hm
+        generalize n.subs = l at hc hnd
+        induction l with
+        | nil => cases hc
+        | cons a r ih =>
+          obtain ⟨k, c'⟩ := a
+          simp only [List.map_cons, List.nodup_cons] at hnd
+          rcases List.mem_cons.1 hc with heq | hc'
+          · cases heq; simp
+          · have hne : k ≠ sid := fun e => hnd.1 (e ▸ List.mem_map_of_mem (f := (·.1)) hc')
+            simp only [List.find?_cons, hne, decide_false]
+            exact ih hc' hnd.2
+      rw [this]; exact hpos
+  · rintro ⟨s, hsm, hsid, hpos, hcond, hev⟩
+    have hq : sv.sess? sid = some s := by
+      -- ids are pairwise distinct: the lookup finds `s`
+      have hnd : (sv.sessions.map (·.sid)).Nodup := by
+        have := hs.nodup
+        unfold sessKeys at this
+        rw [List.map_map] at this
+        exact this
+      unfold Server.sess?
+      clear hcount hm h1 hs
+      generalize sv.sessions = l at hsm hnd
+      induction l with
+      | nil => cases hsm
+      | cons a r ih =>
+        simp only [List.map_cons, List.nodup_cons] at hnd
+        rcases List.mem_cons.1 hsm with rfl | hsm
+        · simp [hsid]
+        · have hne : a.sid ≠ sid := fun e => hnd.1 (by rw [e, ← hsid]; exact List.mem_map_of_mem hsm)
+          simp only [List.find?_cons, hne, decide_false]
+          exact ih hsm hnd.2
+    refine ⟨?_, hcond, ?_⟩
+    · apply mr_subCount_pos_mem
+      rw [← hsid, hcount s hsm]; exact hpos
+    · unfold sessEv; rw [hq]; exact hev
+
+/-- …in particular in every reachable state. -/
+theorem notify_exact_reach {sv : Server} (h : MReach sv) {v : List Bytes} {n : Node} (hv : v ≠ [])
+    (hn : getNode sv v = some n) (by_ : Nat) (od : Option (Option Nat)) (removed : Bool) :
+    notifyChanged sv by_ v n od removed =
+        (changeEvents sv by_ v n od removed).foldl (fun sv (p : Nat × Ev) => feedSrv sv p.1 p.2) sv ∧
+    ((changeEvents sv by_ v n od removed).map (·.1)).Nodup ∧
+    ∀ sid ev, (sid, ev) ∈ changeEvents sv by_ v n od removed ↔
+      ∃ s ∈ sv.sessions, s.sid = sid ∧ 0 < pmMatchCount s.subs v ∧ (sid ≠ by_ ∨ bySelfOf sv by_ = true) ∧
+        changeEv s v n.data od removed = some ev :=
+  notify_exact (mkt_reach h) hv hn by_ od removed
+
+/-- the marking invariant is kept by the tree primitives the handlers call between two notifications (so
+    `notify_exact` applies at every call site of `notifyChanged` inside `SetDataNode`, `PutChild`, `RemoveChild`) -/
+theorem invariant_primitives {sv : Server} (h : MKT sv) :
+    (∀ path d, MK (setNode sv path (fun n => n.setData d))) ∧
+    (∀ by_ parent nm d notify, MK (putChild sv by_ parent (Node.fresh nm d) notify)) ∧
+    (∀ parent key notify, MK (removeIndexEntry sv parent key notify)) ∧
+    (∀ by_ notify names, MKT (removeOne sv by_ notify names)) ∧
+    (∀ by_ names node od removed, MK (notifyChanged sv by_ names node od removed)) :=
+  ⟨fun path d => h.2.setField path _ (fun _ => rfl) (fun _ => rfl) (fun _ => rfl),
+   fun by_ parent nm d notify => h.2.putChild by_ parent _ notify rfl,
+   fun parent key notify => h.2.removeIndexEntry parent key notify,
+   fun by_ notify names => h.removeOne by_ notify names,
+   fun by_ names node od removed => h.2.notifyChanged by_ names node od removed⟩
+
+/-! Non-vacuity of `notify_exact`: in `exSv` a change of `/i/1/a` by its owner (session 1) produces exactly one event, for
+session 0. -/
+example : (changeEvents exSv 1 [[105], sidName 1, [97]]
+    (.mk [97] (some 6) [] [] 0 [(0, 1)]) (some (some 5)) false).map (·.1) = [0] := by decide +kernel
+
+/-! ## 3. one node, one subscriber: the filter transition rule keeps the mirror entry right  (`step_mirror_partial`)
+
+`wants s v d` = `PathMatcher::MatchesPath(v, d)` on `s.subs` (some entry matches the path and its filter accepts the
+payload); `entryFor s v x` = what the mirror of `s` must hold at the node's path (`x = none`: no such node; `some d`:
+`some d` iff wanted); `applyOpt m e?` = the client applying the event, if one was sent.
+
+Full statement NOT proved: `step_mirror` (see the header).  What IS proved is its per-node, per-subscriber core: for a
+session with subscriptions enabled and a positive match count on `v` (by `notify_exact` exactly the sessions that are
+notified; a session with match count 0 wants nothing at `v`: `wants_needs_mark`), if the mirror entry at the node's path is
+right before an overwrite / creation / removal of the node, then after applying the event `changeEv` selects it is right
+again, and no other path of the mirror is touched. -/
+
+theorem wants_needs_mark {s : Sess} {v : List Bytes} {d : Option Nat} (h : wants s v d = true) :
+    0 < pmMatchCount s.subs v := mr_wants_pos h
+
+theorem step_mirror_partial (s : Sess) (hen : s.subsEnabled = true) (v : List Bytes)
+    (hpos : 0 < pmMatchCount s.subs v) (m : Mirror) :
+    (∀ od d, m (pathString v) = entryFor s v (some od) →
+      (applyOpt m (changeEv s v d (some od) false)) (pathString v) = entryFor s v (some d)) ∧
+    (∀ d, m (pathString v) = entryFor s v none →
+      (applyOpt m (changeEv s v d none false)) (pathString v) = entryFor s v (some d)) ∧
+    (∀ od, m (pathString v) = entryFor s v (some od) →
+      (applyOpt m (changeEv s v od (some od) true)) (pathString v) = entryFor s v none) ∧
+    (∀ q, q ≠ pathString v → ∀ nd od r, (applyOpt m (changeEv s v nd od r)) q = m q) :=
+  ⟨fun od d hm => changeEv_overwrite s hen v hpos m od d hm,
+   fun d hm => changeEv_create s hen v hpos m d hm,
+   fun od hm => changeEv_remove s hen v m od hm,
+   fun q hq nd od r => changeEv_other s v nd od r m q hq⟩
+
+/-! Non-vacuity: session 0 of `exSv` has subscriptions enabled and a positive match count on `/i/1/a`. -/
+example : (exSv.sessions.map (fun s => (s.sid, s.subsEnabled))) = [(0, true), (1, true)] := by decide +kernel
+example : ∀ n, getNode exSv [[105], sidName 1, [97]] = some n → ∀ s ∈ exSv.sessions, s.sid = 0 →
+    0 < pmMatchCount s.subs [[105], sidName 1, [97]] := by
+  intro n hn s hs h0
+  have := (marks_correct exSv_reach (by decide) hn).1 s hs
+  have h1 : (getNode exSv [[105], sidName 1, [97]]).map (·.subs) = some [(0, 1)] := by decide +kernel
+  rw [hn] at h1
+  simp only [Option.map_some, Option.some.injEq] at h1
+  rw [← this, h0, h1]
+  decide
 
 end Muscle.Props.C04
